@@ -171,7 +171,7 @@ fn weight() -> BoxedStrategy<u64> {
         10 => 1u64..6,
         4 => 6u64..100,
         1 => Just(1u64 << 32),
-        1 => Just(1u64 << 60),
+        1 => prop_oneof![Just(1u64 << 60), Just(1u64 << 63), Just(u64::MAX)],
         // token-sized weights (a staking-backed group): k * 10^12 give or take a little
         3 => (1u64..4, -3000i64..3000).prop_map(|(k, off)| ((k * 1_000_000_000_000) as i64 + off) as u64),
     ]
@@ -483,6 +483,9 @@ struct PModel {
     last_status: Status,
     seen: BTreeSet<u8>,
     rejected_before_expiry: bool,
+    /// it was reported Rejected before expiry although it was not voted down: with its No weight alone
+    /// (Veto ballots set aside) a pass was still possible
+    early_rejection_unjustified: bool,
     /// first observation (content is fixed at creation)
     first: PObs,
     deposit_held: bool,
@@ -1122,6 +1125,7 @@ pub fn run_mcase(prop: &str, case: &MCase, ctx: &mut CaseCtx) -> Result<(), Viol
                     seen: BTreeSet::new(),
                     // a Rejected status reported by the creating call itself is the stored status
                     rejected_before_expiry: obs.status == Status::Rejected,
+                    early_rejection_unjustified: false,
                     first: obs.clone(),
                     deposit_held: false,
                     deposit_returned: false,
@@ -1149,6 +1153,14 @@ pub fn run_mcase(prop: &str, case: &MCase, ctx: &mut CaseCtx) -> Result<(), Viol
             }
             if o.status == Status::Rejected && !is_expired(&o.expires, now_h, now_t) {
                 m.rejected_before_expiry = true;
+                // "voted down": the No votes alone rule a pass out (the documented early-rejection rule looks
+                // at No weight only; Veto ballots do not reject early on the pinned tree)
+                if let Some(tl) = o.tally() {
+                    let no_only = Tally { veto: 0, ..tl };
+                    if tl.total() <= o.total as u128 && can_still_pass(o.thr, o.total, &no_only, 0) {
+                        m.early_rejection_unjustified = true;
+                    }
+                }
             }
         }
         let alive = post.props.iter().filter(|p| matches!(p.status, Status::Open | Status::Passed)).count();
@@ -1196,6 +1208,11 @@ pub fn run_mcase(prop: &str, case: &MCase, ctx: &mut CaseCtx) -> Result<(), Viol
                 let passed = tally.map(|tl| if expired { passes_at_expiry(o.thr, o.total, &tl, 0) } else { certain_pass(o.thr, o.total, &tl, 0) }).unwrap_or(false);
                 if o.status == Status::Rejected && !passed && d.refund_failed {
                     if m.rejected_before_expiry && !m.closed && !m.executed {
+                        // the known finding covers proposals that really were voted down (or created expired);
+                        // one that was stored Rejected while it could still pass is a different failure
+                        if m.early_rejection_unjustified {
+                            return Err(v(prop, "rejected-early-deposit-stuck", format!("proposal {} was stored Rejected before expiry although it was not voted down (its No weight alone did not rule a pass out); refund_failed_proposals is on, but Close is refused afterwards, so the deposit of {} is never returned to actor{}", m.id, d.amount, m.proposer)));
+                        }
                         if ctx.tolerate("C15/close-refuses-stored-rejected") {
                             ctx.count("f6_hits");
                             continue;
@@ -1793,7 +1810,7 @@ pub fn decode_mcase(prop: &str, u: &mut arbitrary::Unstructured) -> MCase {
             2..=4 => 1,
             5..=8 => 1 + arb_below(u, 5) as u64,
             9 => 6 + arb_below(u, 94) as u64,
-            10 => if arb_bool(u, 1, 2) { 1u64 << 32 } else { 1u64 << 60 },
+            10 => [1u64 << 32, 1u64 << 60, 1u64 << 63, u64::MAX][arb_below(u, 4)],
             _ => ((1 + arb_below(u, 3) as u64) * 1_000_000_000_000).wrapping_add(arb_below(u, 6000) as u64).wrapping_sub(3000),
         }
     };
